@@ -45,6 +45,17 @@ def check_image(out, model, img, pf, limit, nfields, descs, seed, tag, coords=Fa
     v_nofail, d1 = tc.impl_taste(path, limit, opts, True)
     v_fail, d2 = tc.impl_taste(path, limit, opts, False)
     out['evals'] += 1
+    # the verdict is the same at every verbosity (the messages are not compared)
+    rv = random.Random(repr((seed, tag, descs, 'verbosity')))
+    verb = rv.choice([0, 1, 2, 2, 3])
+    if verb:
+        v_nofail_v, _ = tc.impl_taste(path, limit, opts, True, verbose=verb)
+        v_fail_v, _ = tc.impl_taste(path, limit, opts, False, verbose=verb)
+        out['dist'][f"also validated at verbosity={verb}"] = out['dist'].get(f"also validated at verbosity={verb}", 0) + 1
+        if (v_nofail_v, v_fail_v) != (v_nofail, v_fail):
+            out['violations'].append(dict(seed=seed, limit_level=limit, corruptions=descs, kind='verbosity-changes-verdict',
+                                          what=f'verbose={verb}: nofail={v_nofail_v} fail={v_fail_v}; verbose=0: nofail={v_nofail} fail={v_fail}',
+                                          options=dict(zip(tc.OPT_NAMES, opts)), meta=pf.meta))
     # (offsets beyond 2**32 are not handed to the list-based model: it would walk that many bytes)
     mgood = tc.model_taste(model, diskimg.image_sx(img), limit, opts) if use_model else None
     ok, why = diskimg.consistent(img, nfields, limit)
